@@ -36,6 +36,7 @@ class PScen:
     def __init__(self, name, conf, msgs, expect, decoys=(), devmap=(), dirs=('src', 'dstA', 'dstB'), pats=None):
         self.name, self.conf, self.msgs, self.expect, self.decoys, self.devmap, self.dirs = name, conf, msgs, expect, list(decoys), devmap, dirs
         self.pats = pats
+        self.relative = None              # (style of the walked maildir, style of the destinations): see relative_scenarios
 
     def tree(self):
         t = {}
@@ -45,6 +46,8 @@ class PScen:
             t['%s/%s/%s' % (md, sub, name)] = ws.msg(i)
         for rel in self.decoys:
             t[rel] = b'X-Decoy: ' + rel.encode() + b'\n\ndecoy\n'
+        if self.relative:
+            t['sub'] = None                  # `sub/../src`
         return t
 
 
@@ -155,6 +158,44 @@ def special_scenarios(tier):
             for kind, rule, pats, expect in into:
                 S.append(PScen('special-%d-%s%s' % (n, kind, '-tilde' if via else ''), mkconf('maildir "%s/src" {\n\t%s\n}\n' % (R, rule)), smsgs, expect,
                                dirs=dirs, pats=pats))
+    return S
+
+# Maildirs named RELATIVE to the working directory of the run (the sandbox root): `maildir "src"`, `move "dstA"`, `isdirectory "dstA"`,
+# `-f conf`; also `./src`, `src/`, `src//`, `../<root>/src`, `sub/../src`, mixed with absolute names.  util.c pathslice() infers the maildir
+# and the subdirectory of a flag / flags / move action from the message's path and treats a path without a leading slash separately
+# ("compensate for missing leading slash").  The documented destination does not depend on how a maildir is written.
+RELSTYLES = [('plain', lambda d: d), ('dot', lambda d: './' + d), ('slash', lambda d: d + '/'), ('slash2', lambda d: d + '//'),
+             ('dotdot', lambda d: '../@B@/' + d), ('inner', lambda d: 'sub/../' + d), ('dotslash2', lambda d: './/' + d), ('abs', lambda d: R + '/' + d)]
+
+
+def relative_scenarios(tier):
+    S = []
+    st = dict(RELSTYLES)
+    names = [n for n, _ in RELSTYLES]
+    if tier == 'quick':
+        combos = [(a, a) for a in names if a != 'abs'] + [('plain', 'abs'), ('abs', 'plain'), ('dot', 'plain'), ('plain', 'slash'), ('dotdot', 'dot'),
+                                                          ('abs', 'dotdot')]
+    else:
+        combos = [(a, b) for a in names for b in names if (a, b) != ('abs', 'abs')]
+    msgs = {('src', sub, name): i + 1 for i, (sub, name) in enumerate(PNAMES)}
+    for a, b in combos:
+        src, dst, other = st[a]('src'), st[b]('dstA'), st[b]('dstB')
+        rules = [
+            ('flag-cur', 'match new flag !new', [], lambda md, sub, nm: ('src', 'cur', '')),
+            ('flag-new', 'match header "X-Id" /^[456]$/ flag new', [('^[456]$', '')], lambda md, sub, nm: ('src', 'new' if nm[0] in '346' else sub, '')),
+            ('flags', 'match all flags "Tb"', [], lambda md, sub, nm: ('src', sub, 'Tb')),
+            ('move', 'match all move "%s"' % dst, [], lambda md, sub, nm: ('dstA', sub, '')),
+            ('move-flag', 'match new move "%s" flag !new' % dst, [], lambda md, sub, nm: ('dstA', 'cur', '') if sub == 'new' else ('src', sub, '')),
+            ('flag-move', 'match new flag !new move "%s"' % dst, [], lambda md, sub, nm: ('dstA', 'cur', '') if sub == 'new' else ('src', sub, '')),
+            ('isdirectory', 'match isdirectory "%s" and ! isdirectory "%s" move "%s"' % (dst, st[b]('nowhere'), other), [],
+             lambda md, sub, nm: ('dstB', sub, '')),
+            ('isdirectory-else', 'match isdirectory "%s" move "%s"\n\tmatch all move "%s"' % (st[b]('nowhere'), dst, other), [],
+             lambda md, sub, nm: ('dstB', sub, '')),
+        ]
+        for kind, rule, pats, expect in rules:
+            ps = PScen('relative-%s-%s-%s' % (a, b, kind), 'maildir "%s" {\n\t%s\n}\n' % (src, rule), msgs, expect, dirs=('src', 'dstA', 'dstB'), pats=pats)
+            ps.relative = (a, b)
+            S.append(ps)
     return S
 
 
@@ -307,9 +348,15 @@ def process_part(rep, sc):
         spec = ws.Spec(ps.name, ps.conf, pats, tree=ps.tree(), devmap=ps.devmap)
         scen = spec.build(tools)
         try:
-            r = scen.run()
-            req, tr, notes = W.request(scen, spec.pats, r)
-            kind, detail = world.compare(scen, r, W.verdict([req])[0])
+            rel = ps.relative
+            # relative names: the working directory of the run is the sandbox root; every second scenario also names the configuration
+            # file relatively (`-f conf`).  The call-by-call comparison with the model needs ONE name per directory: plain relative names only
+            r = scen.run(argv=(['-f', 'conf'] if rel and (sum(ps.name.encode()) & 1 or rel[0] == 'plain') else None))
+            if rel and (rel != ('plain', 'plain') or 'isdirectory' in ps.name):       # (the world model has no isdirectory: DESIGN 9.4)
+                kind, detail = 'ok', ''
+            else:
+                req, tr, notes = W.request(scen, spec.pats, r, relative=bool(rel))
+                kind, detail = world.compare(scen, r, W.verdict([req])[0])
             probs = judge(ps, scen, r)
             if r.status != 0:
                 probs.append('exit status %s: %s' % (r.status, r.err[-200:].decode('latin-1')))
@@ -321,7 +368,7 @@ def process_part(rep, sc):
             scen.cleanup()
 
     with cf.ThreadPoolExecutor(vlib.NCPU) as ex:
-        results = list(ex.map(one, pscenarios(rep.tier) + special_scenarios(rep.tier)))
+        results = list(ex.map(one, pscenarios(rep.tier) + special_scenarios(rep.tier) + relative_scenarios(rep.tier)))
     bad = []
     for res in results:
         if res['problems']:
